@@ -328,6 +328,8 @@ def fixed_cases():
     flat("Foo", [["e", {"k": "enumCls", "cls": "Color", "names": ["RED", "GREEN", "BLUE"]}]], [["e", "PINK"]])
     flat("Foo", [["é", {"k": "integer"}]], [["é", "x"]])
     flat("Foo", [["x\u0301", {"k": "integer"}]], [["x\u0301", "a"]])   # identifier with a combining mark
+    flat("Foo", [["\u0928\u093e\u092e", {"k": "integer"}]], [["\u0928\u093e\u092e", "a"]])   # Hindi 'name': U+093E is a vowel sign (Mc)
+    flat("Foo", [["\u0e0a\u0e37\u0e48\u0e2d", {"k": "string", "maxLength": 1}]], [["\u0e0a\u0e37\u0e48\u0e2d", "ab"]])   # Thai 'name'
     flat("Foo", [["i", {"k": "integer", "min": [3, 1]}]], [["i", 0]])
     flat("Foo", [["ap", {"k": "seqPos", "items": [{"k": "integer"}, {"k": "string"}]}]], [["ap", {"l": [1]}]])
     flat("Foo", [["t", {"k": "tuplePos", "items": [{"k": "integer"}, {"k": "string"}]}]], [["t", {"t": [1]}]])
